@@ -382,14 +382,15 @@ class Builder:
     def dummy_upd(self):
         return self.upd(10 ** 6, [], None)
 
-    def evolve_failure(self):
-        """what the evolve step that left no population did (inferred)"""
+    def evolve_failure(self, reached_final=False):
+        """what the evolve step that left no population did (inferred); reached_final: the final choices
+        were recorded afterwards, so - unless an error was swallowed - the step met the dedicated error"""
         fired = self.rec['fired']
         if 'mutation' in fired:
             return '(ERaise (EInj 2))'
         if 'factory' in fired:
             return '(ERaise (EInj 3))'
-        if self.rec['outcome'] == 'ok' or self.rec['outcome'] == 'raise:EvaluationAttemptsError':
+        if reached_final or self.rec['outcome'] == 'ok' or self.rec['outcome'] == 'raise:EvaluationAttemptsError':
             return 'EAttemptsErr'
         return '(ERaise EUnknown)'
 
@@ -432,7 +433,7 @@ class Builder:
                         raise ValueError('evaluator calls between the initial evaluation and its record')
                 elif gens[k]['label'] == 'final_choices':
                     if bs:
-                        steps.append(self.step(bs, self.evolve_failure(), 'LNone', False, self.dummy_upd()))
+                        steps.append(self.step(bs, self.evolve_failure(reached_final=True), 'LNone', False, self.dummy_upd()))
                     final = self.upd(k, prev_arch, pop_i)
                 else:
                     off = [u for b in bs for u in (b['out'] or [])]
